@@ -21,7 +21,8 @@ AllQuirks == {
 }
 
 \* repaired by "fix:" commits in /repo (see /verif/known_findings.json, section fixed)
-FixedQuirks == {"zeroBeforeEmbedGuard", "emptyMsgNotAlloc", "makeBeforeNullGuard", "embedNeverReset"}
+FixedQuirks == {"zeroBeforeEmbedGuard", "emptyMsgNotAlloc", "makeBeforeNullGuard", "embedNeverReset",
+                "staleMapKeys", "staleOnNilSource"}
 
 \* what the current tree does
 Quirks == AllQuirks \ FixedQuirks
